@@ -298,6 +298,10 @@ func checkC04(p *Prog, r *Report) {
 	noWriteThroughPointee(p, r, "R14")
 	c04FlagRetention(p, o, r)
 	engineFailureRule(p, r, "R9")
+	r.Rule("R15", "the engine hands on what its stages produced: the list returned by every stage call of the generic UpdateList (delete, copy-to-selected, copy-to-all, merge) flows into the next stage or into the result — a stage result that is dropped makes a write that was answered with success have no effect as soon as the stage works on a copy")
+	engineStageResultsUsed(p, r, "R15")
+	r.Rule("R16", "a restricted write stays restricted: the dispatcher extracts the partial and delete filters of every reply, notify and write — not conditioned on the classifier or on the command's optional function element — and hands exactly that pair to the handler (shared with C02-R15); a filter that is lost turns a partial write or a delete into a wholesale replacement of the function data, write-protected elements included")
+	c02FiltersExtracted(p, r, "R16")
 	mergeTruthTable(p, r, "R10")
 	deleteStageTable(p, r, "R11")
 	lintSubset(p, r, "R12", "along the write route no partial filter, delete filter, remoteWrite or persist value is passed, stored or received under the name of another of them (cross-wiring lint C02-R2 restricted to the update roles)", func(key string) bool {
@@ -769,4 +773,54 @@ func noWriteThroughPointee(p *Prog, r *Report, rule string) {
 		r.Pass(rule, "model|reflective-sets", "", fmt.Sprintf("%d reflective Set calls in package model, none through the pointee of a field", nSet))
 	}
 	r.Floor(rule, "reflective Set calls in package model", nSet, 3)
+}
+
+// engineStageResultsUsed: in the generic model.UpdateList every call of a repository function returning (list, ok)
+// has its list result used: it reaches a return of the engine (directly or through a later stage).
+func engineStageResultsUsed(p *Prog, r *Report, rule string) {
+	n := 0
+	seen := map[*ssa.Function]bool{}
+	for _, fn := range p.RepoFns("model") {
+		if originName(fn) != "UpdateList" || fn.Signature.Recv() != nil || seen[originOf(fn)] || fn.Blocks == nil {
+			continue
+		}
+		seen[originOf(fn)] = true
+		idx := 0
+		forEachCallOwn(fn, func(site ssa.CallInstruction) {
+			c, ok := site.(*ssa.Call)
+			if !ok {
+				return
+			}
+			callee := c.Call.StaticCallee()
+			if callee == nil || !p.IsRepoFn(callee) {
+				return
+			}
+			res := callee.Signature.Results()
+			if res.Len() != 2 || !isBoolType(res.At(1).Type()) {
+				return
+			}
+			if _, isSl := res.At(0).Type().Underlying().(*types.Slice); !isSl {
+				return
+			}
+			idx++
+			n++
+			used := false
+			if c.Referrers() != nil {
+				for _, ref := range *c.Referrers() {
+					ex, isEx := ref.(*ssa.Extract)
+					if !isEx || ex.Index != 0 {
+						continue
+					}
+					t := forwardTaint(ex)
+					for _, b := range fn.Blocks {
+						if ret, isRet := b.Instrs[len(b.Instrs)-1].(*ssa.Return); isRet && len(ret.Results) > 0 && t[ret.Results[0]] {
+							used = true
+						}
+					}
+				}
+			}
+			r.Check(rule, fmt.Sprintf("model.UpdateList|stage#%d:%s", idx, p.StableName(callee)), used, p.InstrPos(c), "the list this stage returns reaches the engine's result")
+		})
+	}
+	r.Floor(rule, "stage calls of the engine", n, 3)
 }
